@@ -65,7 +65,7 @@ def body(c):
             c.evaluations += 1
             if m["ok"]: c.traces += 1
             else: c.report("c09:concretise", "run %d: %s" % (m["run"], m["what"]), m)
-    c.assumptions += ["SHA-256 collision resistance is assumed: symbolic roots are compared structurally",
+    c.assumptions += ["SHA-256 collision resistance is assumed: symbolic roots are compared structurally; the bytes are recomputed twice, by the harness's interpreter (bitcoin_hashes compression function) for every run and by Sha256.tla inside TLC for a sample",
                       "jet roots are atoms taken from the crate's tables (tied to libsimplicity by C14)"]
     c.finish_kw = dict(exhaustive=True, rule=(
         "TLC: every typable program up to 3 (4) nodes x every subset of hidden sub-expressions: hiding algebra = plain root, "
@@ -76,7 +76,10 @@ def body(c):
 def validate_and_collect(c, tpath):
     terms = []
     lines = [l for l in open(tpath).read().split("\n") if l.strip()]
-    accepted, rej, r = c.tlc_trace("Trace_Roots", "Trace_Roots.cfg", tpath, len(lines), heap="8g")
+    # CONCRETE: every m-th run also has its bytes recomputed inside TLC (Sha256.tla / RootBytes.tla), the rest by the interpreter
+    m = 8 if not c.thorough else 40
+    accepted, rej, r = c.tlc_trace("Trace_Roots", "Trace_Roots.cfg", tpath, len(lines), heap="8g", env={"CONCRETE": m}, timeout=5000)
+    c.extra["runs_with_bytes_recomputed_in_tlc"] = len([1 for l in lines if json.loads(l).get("run", 1) % m == 0])
     for k, v in r.prints:
         if k == "TERMS":
             terms += tla_to_json_lines([(k, v)], "TERMS")
